@@ -61,6 +61,27 @@ func c15One(x *ctx, c LoadCase, useBinary, binaryOnFail bool) bool {
 		}
 	}
 	main := c.Main
+	// the same input found by default discovery (tasks.yaml in the invocation directory or above,
+	// no -c flag): a different path through the CLI's Before hook
+	if strings.HasSuffix(main, ".yaml") && binaryOnFail {
+		if b, err := os.ReadFile(dir + "/" + main); err == nil {
+			os.WriteFile(dir+"/tasks.yaml", b, 0o644)
+			os.MkdirAll(dir+"/subdir", 0o755)
+			for _, wd := range []string{dir, dir + "/subdir"} {
+				br := runBinary(wd, "list")
+				x.res.Extra["binary_runs"]++
+				if d := crashed(br); d != "" {
+					site := ""
+					if i := strings.Index(br.out, "github.com/taskctl/taskctl/"); i >= 0 {
+						site = strings.SplitN(br.out[i+len("github.com/taskctl/taskctl/"):], "(", 2)[0]
+					}
+					x.violation("binary-crash", "list-by-default-discovery:"+site, fmt.Sprintf("taskctl list (configuration found by default discovery) %s (input: %s)", d, c.Note), c, true)
+					bad = true
+				}
+			}
+			os.Remove(dir + "/tasks.yaml")
+		}
+	}
 	if r.err != nil {
 		if binaryOnFail {
 			check("-c", main, "list")
